@@ -182,6 +182,19 @@ def build(tier, repo):
     chk.note_analysed("CWRAP_sites", n)
     r4.require(10)
 
+    r6 = chk.rule("C15-R6", "INT / DOUBLE / COMPLEX arms of element-wise switches are identical up to the element type",
+                  "results agree with exact element-wise arithmetic for all three typecodes")
+    from .. import cwrap_rules as cw
+    nsw = 0
+    for fname in ("dense.c", "base.c"):
+        cc = cs[fname] if fname in cs else None
+        if cc is None:
+            continue
+        nsw += cw.typed_arm_rule(r6, cc, cc.order, exceptions={
+            "Matrix_NewFromPyBuffer": "the arms convert from different source element types by design (outer switch on the target type, inner on the source type)"})
+    chk.note_analysed("typed_switches", nsw)
+    r6.require(10)
+
     r5 = chk.rule("C15-R5", "Python-level max/min/mul/div return fresh matrices", "regular operations create new objects")
     path = repo + "/src/python/__init__.py"
     try:
